@@ -2,6 +2,9 @@
 EXTENDS PortView
 \* descriptions: R(name, hw, st)
 R(n, h, s) == [name |-> n, hw |-> h, st |-> s]
+LisNone == {"none"}
+LisAll == {"none", "listen", "halt_nexus", "halt_con", "raise_nexus", "raise_con", "remove_nexus", "remove_con"}
+Names1 == {"a"}
 Names2 == {"a", "b"}
 Names3 == {"a", "b", "c"}
 Hws1 == {"A"}
@@ -13,6 +16,7 @@ PNames == {"a", "b", "c", "zz"}       \* "zz": a name no port ever has
 PHws == {"A", "B", "C", "ZZ"}
 
 \* features replies over 2 port numbers
+Init2l == { <<None, None>>, <<R("a", "A", 0), R("a", "A", 1)>> }
 Init2h == { <<None, None>>, <<R("a", "A", 0), R("b", "A", 0)>> }
 \* over 3 port numbers: empty, plain, duplicates of name and of address, a gap
 Init3 == { <<None, None, None>>,
